@@ -46,8 +46,10 @@ def parse(pattern, flags=0):
             sub = av[-1]
             if len(sub) == 1 and sub[0][0] == sre_c.MAX_REPEAT:
                 lo, hi, body = sub[0][1]
+                # \d+  or, the same thing for a bytes pattern (and for ASCII text), [0-9]+
                 if lo == 1 and hi == sre_c.MAXREPEAT and len(body) == 1 and body[0][0] == sre_c.IN \
-                        and body[0][1] == [(sre_c.CATEGORY, sre_c.CATEGORY_DIGIT)]:
+                        and (body[0][1] == [(sre_c.CATEGORY, sre_c.CATEGORY_DIGIT)]
+                             or (is_bytes and body[0][1] == [(sre_c.RANGE, (48, 57))])):
                     items.append(("digits",))
                     continue
             raise Unsupported(f"regex group in {pattern!r} is not (\\d+)")
